@@ -1,4 +1,6 @@
 """R-PARSEPURE: parsing, checking and folding never execute instructions; cells are only created by executing `mut`."""
+import re
+
 from ..engine import RuleResult
 from ..model import aggregates
 
@@ -77,4 +79,21 @@ def run(ctx):
                 b.where() if b else "")
     else:
         res.ok(key, "", "Variable::of_type is reachable only from execution")
+    # reading or writing a cell while parsing / folding: the shell parses a line against the VALUES its session holds, a program
+    # parsed as a whole only against types - a fold that looks inside a cell bakes in a content that the other route reads later
+    key = "pure:cell-access-at-parse-time"
+
+    def cut2(u, v):
+        return cut_edge(u, v) or v == "variable::r#mut::Mut::string"      # rendering a value for an error message
+    reach2 = lib.reach(rs, cut_edge=cut2)
+    locks = sorted(t for t in reach2 if re.search(r"(RwLock::<T>::(read|write|try_read|try_write)|Mutex::<T>::(lock|try_lock))$", t))
+    if locks:
+        ch = lib.chain(reach2, locks[0])
+        b = lib.body(ch[0])
+        res.bad(key, "parse/fold-time function %s can lock a mutable cell (%s): its content is read (or written) while the program is "
+                     "parsed - a constant index / operand folded through a cell keeps the content of that moment, and the statement-by-"
+                     "statement route (which parses against live values) differs from the batch route" % (ch[0], " -> ".join(ch)),
+                b.where() if b else "")
+    else:
+        res.ok(key, "", "no lock acquisition reachable from parsing / folding (rendering apart)")
     return res
